@@ -1,0 +1,14 @@
+//go:build verif
+
+package wallet
+
+import (
+	"github.com/elnosh/gonuts/wallet/storage"
+)
+
+// Verification hook (build tag verif): accessor only, no behaviour change.
+
+// VerifWrapDB replaces the wallet's storage handle by wrap(current handle).
+func (w *Wallet) VerifWrapDB(wrap func(storage.WalletDB) storage.WalletDB) {
+	w.db = wrap(w.db)
+}
